@@ -18,7 +18,12 @@ RULE = (
     "real code with a counter on the data container's append(); the read is aborted by the harness when the counter "
     "exceeds the deterministic budget 2*(1+units+sections)+8 (units = lines in text storage, bytes in binary "
     "storage); a second counter on the dispatch tests (Register.matches / Block.begins) bounds the steps that create no element. Binary register contents with bytes that are not valid UTF-8 are judged through their ASCII twin (the original must end too, by returning or by raising); three text register cases in a hundred are read from a PATH, larger than one decoding chunk, with an undecodable byte late in the file (raising or returning, within the element bound). Judged by Spec.C18.holds (the read returned and created at most units(+declared sections) elements) "
-    "and compared with the model's element count. non-trivial = non-empty content; distinct by full case."
+    "and compared with the model's element count. "
+    "History: three generated cases in ten (choices drawn from a separate random stream derived from the case) run one or two EARLIER reads with the same file class "
+    "(its own content, once or twice over) before the observed read - completed, interrupted by an exception raised out of the k-th append, or aborted by an exception raised by the k-th "
+    "element's read() and caught by the application; the observed read is judged exactly as the model computes it for its content ALONE (earlier reads leave nothing behind), and the "
+    "elements of the file that File.read RETURNS are counted as well as the append() calls (elements = returned elements minus the placeholder). "
+    "non-trivial = non-empty content; distinct by full case."
 )
 ASSUMPTIONS = [
     "binary register records are at least one byte wide and the peek window (linesize) covers every identifier window",
@@ -69,14 +74,100 @@ def count_appends(container_cls, budget, fn, ntypes=1):
     Register.matches = classmethod(matches)
     Block.begins = classmethod(begins)
     try:
-        fn()
-        return {"returned": True, "appends": n[0]}
+        res = fn()
+        out = {"returned": True, "appends": n[0]}
+        data = getattr(res, "data", None)
+        if data is not None:
+            # what File.read hands back: the elements of the returned file (placeholder included), counted
+            # with a cap (a container whose iteration does not end is not an answer either)
+            cap, m = 4 * budget + 64, 0
+            for _ in data:
+                m += 1
+                if m >= cap:
+                    break
+            out["elements"] = m
+        return out
     except BudgetExceeded:
         return {"returned": False, "appends": n[0]}
     finally:
         container_cls.append = orig
         Register.matches = orig_matches
         Block.begins = orig_begins
+
+
+class ElementFailed(ValueError):
+    pass
+
+
+def failing_element(classes, k):
+    """context: the k-th call (k >= 1) of an element's read() raises (an element that cannot make sense of its
+    lines: the application catches the exception and goes on with other files)"""
+    import contextlib
+
+    @contextlib.contextmanager
+    def cm():
+        seen = []
+        for c in classes:
+            if c not in seen:
+                seen.append(c)
+        origs = {c: c.read for c in seen}
+        own = {c: c.__dict__.get("read") for c in seen}
+        n = [0]
+        for c in seen:
+
+            def wrapper(self, *a, _o=origs[c], **kw):
+                n[0] += 1
+                if n[0] >= k:
+                    raise ElementFailed("element cannot be read")
+                return _o(self, *a, **kw)
+
+            c.read = wrapper
+        try:
+            yield
+        finally:
+            for c in seen:
+                if own[c] is None:
+                    del c.read
+                else:
+                    c.read = own[c]
+
+    return cm()
+
+
+def run_history(case, read, classes, x, budget):
+    """the earlier reads of case["before"], with the same file class: whatever they do (return, raise, get
+    interrupted) is the application's business and is not judged here; `read(content, budget)`"""
+    done = []
+    for h in case.get("before") or []:
+        w = x * h["times"]
+        wb = budget * h["times"] + 8
+        try:
+            if h["mode"] == "interrupt":
+                o = read(w, h["k"])  # the (k+1)-th append raises
+                done.append("interrupted" if not o["returned"] else "returned")
+            elif h["mode"] == "element":
+                with failing_element(classes, h["k"]):
+                    read(w, wb)
+                done.append("returned")
+            else:
+                read(w, wb)
+                done.append("returned")
+        except Exception as e:
+            done.append(type(e).__name__)
+    return done
+
+
+def describe_history(case):
+    hs = case.get("before") or []
+    if not hs:
+        return ""
+    words = {
+        "interrupt": "a read of {c} interrupted by an exception out of append number {k1}",
+        "element": "a read of {c} aborted by an exception raised by the read() of element number {k}",
+        "complete": "a completed read of {c}",
+    }
+    parts = [words[h["mode"]].format(c="the same content" if h["times"] == 1 else "the same content twice over", k=h["k"], k1=h["k"] + 1) for h in hs]
+    return "after " + " and ".join(parts) + " with the same file class: "
 
 
 def twin_of(x: bytes) -> bytes:
@@ -145,14 +236,19 @@ def run_impl(case):
         with warnings.catch_warnings():
             warnings.simplefilter("ignore")
             if fam == "register":
+                from cfinterface.components.defaultregister import DefaultRegister
                 from cfinterface.data.registerdata import RegisterData
 
-                RF, _ = fsup.mk_register_file(case["regs"], "BINARY" if binary else "TEXT")
+                RF, rclasses = fsup.mk_register_file(case["regs"], "BINARY" if binary else "TEXT")
                 nt = len(case["regs"])
 
-                def read_bin(content):
-                    return count_appends(RegisterData, budget, lambda: RF.read(content, linesize=case["linesize"]) if case.get("linesize_kw") else RF.read(content, case["linesize"]), nt)
+                def read_bin(content, b=budget):
+                    return count_appends(RegisterData, b, lambda: RF.read(content, linesize=case["linesize"]) if case.get("linesize_kw") else RF.read(content, case["linesize"]), nt)
 
+                def read_txt(content, b=budget):
+                    return count_appends(RegisterData, b, lambda: RF.read(content), nt)
+
+                hist = run_history(case, read_bin if binary else read_txt, list(rclasses) + [DefaultRegister], x, budget)
                 if binary and any(b >= 128 for b in x):
                     # bytes that are not ASCII: a window that does not decode ends the read with UnicodeDecodeError
                     # (termination, outside the modelled domain).  The TWIN content (those bytes replaced by "z")
@@ -162,25 +258,46 @@ def run_impl(case):
                     except UnicodeDecodeError:
                         o = {"returned": True, "raised": "UnicodeDecodeError"}
                     t = read_bin(twin_of(x))
-                    return {**t, "non_ascii_original": o}
-                return read_bin(x) if binary else count_appends(RegisterData, budget, lambda: RF.read(x), nt)
+                    return {**t, "non_ascii_original": o, "history": hist}
+                return {**(read_bin(x) if binary else read_txt(x)), "history": hist}
             if fam == "block":
+                from cfinterface.components.defaultblock import DefaultBlock
                 from cfinterface.data.blockdata import BlockData
 
-                BF, _ = fsup.mk_block_file(case["blocks"], binary)
-                return count_appends(BlockData, budget, lambda: BF.read(x), len(case["blocks"]))
+                BF, bclasses = fsup.mk_block_file(case["blocks"], binary)
+
+                def read_blk(content, b=budget):
+                    return count_appends(BlockData, b, lambda: BF.read(content), len(case["blocks"]))
+
+                hist = run_history(case, read_blk, list(bclasses) + [DefaultBlock], x, budget)
+                return {**read_blk(x), "history": hist}
+            from cfinterface.components.defaultsection import DefaultSection
             from cfinterface.data.sectiondata import SectionData
 
-            SF, _ = fsup.mk_section_file(case["secs"], binary=binary)
-            return count_appends(SectionData, budget, lambda: SF.read(x))
+            SF, sclasses = fsup.mk_section_file(case["secs"], binary=binary)
+
+            def read_sec(content, b=budget):
+                return count_appends(SectionData, b, lambda: SF.read(content))
+
+            hist = run_history(case, read_sec, list(sclasses) + [DefaultSection], x, budget)
+            return {**read_sec(x), "history": hist}
     except Exception as e:
         return codec.enc_exc(e)
+
+
+def created(obs):
+    """the number of elements the read created, as observed: the append() calls of the read, or — when the file
+    that was RETURNED holds more than those (placeholder aside) — the elements the application is given"""
+    n = obs.get("appends", 0)
+    if obs.get("returned") and "elements" in obs:
+        n = max(n, obs["elements"] - 1)
+    return n
 
 
 def request(case, obs):
     if case.get("bad_byte_path"):
         return {"op": "all", "obs": obs if "checks" in obs else {"exc": "harness"}}
-    o = obs if "returned" in obs else {"returned": False, "appends": 0}
+    o = {"returned": bool(obs["returned"]), "appends": created(obs)} if "returned" in obs else {"returned": False, "appends": 0}
     # a binary section file is read line by line like a text one: the model of the text is the model of the bytes
     xs = case["x"]
     if case["family"] == "register" and case["binary"] and any(b >= 128 for b in xs):
@@ -209,16 +326,19 @@ def judge(case, obs, resp):
         return {"status": "error", "why": f"the MODEL exceeds the bound: {resp.get('model')}"}
     if "exc" in obs:
         return {"status": "oracle", "why": f"read raised {obs['exc']}: {obs.get('msg')} (in-domain content must be read successfully)"}
+    pre = describe_history(case)
+    n = created(obs)
+    what = f"{n} elements created" if n == obs.get("appends") else f"a file of {obs.get('elements')} elements returned ({obs.get('appends')} append() calls during the read; placeholder included)"
     if not resp["holds"]:
         m = resp["model"]
         if not obs["returned"]:
-            return {"status": "oracle", "why": f"read did not finish within the step budget: {obs['appends']} elements appended for {m['bound']} units of input"}
-        return {"status": "oracle", "why": f"{obs['appends']} elements created for only {m['bound']} units of input"}
+            return {"status": "oracle", "why": f"{pre}read did not finish within the step budget: {obs['appends']} elements appended for {m['bound']} units of input"}
+        return {"status": "oracle", "why": f"{pre}{what} for only {m['bound']} units of input"}
     if not resp["agree"]:
-        return {"status": "corr", "why": f"model creates {resp['model']['appends']} elements, implementation {obs['appends']}"}
+        return {"status": "corr", "why": f"{pre}model creates {resp['model']['appends']} elements (plus the placeholder), implementation: {what}"}
     o = obs.get("non_ascii_original")
     if o is not None and not o.get("returned"):
-        return {"status": "oracle", "why": f"content with bytes that are not ASCII: the read did not finish within the step budget ({o.get('appends')} elements appended), although the same content with those bytes replaced by 'z' is read in {obs['appends']} steps"}
+        return {"status": "oracle", "why": f"{pre}content with bytes that are not ASCII: the read did not finish within the step budget ({o.get('appends')} elements appended), although the same content with those bytes replaced by 'z' is read in {obs['appends']} steps"}
     return {"status": "ok", "why": ""}
 
 
@@ -230,6 +350,8 @@ def features(case, obs):
     f = [f"family={case['family']}", "binary" if case["binary"] else "text", f"units={min(units_of(case), 30)}"]
     if isinstance(obs, dict) and "appends" in obs:
         f.append("all_units_became_elements" if obs["appends"] == units_of(case) else "fewer_elements_than_units")
+    for h in case.get("before") or []:
+        f.append(f"before={h['mode']}")
     return f
 
 
@@ -271,6 +393,25 @@ def random_case(rng):
     elif not c["binary"] and c["family"] == "register" and rng.random() < 0.03:
         c["bad_byte_path"] = True
     return c
+
+
+def with_history(case):
+    """three cases in ten: one or two earlier reads with the same file class before the observed one (completed,
+    interrupted out of an append, aborted by an element).  The choices come from a random stream of their own,
+    derived from the case, so that the cases themselves are the ones generated before this dimension existed"""
+    import zlib
+
+    if case.get("bad_byte_path"):
+        return case
+    hr = random.Random(zlib.crc32(json.dumps(case, sort_keys=True).encode()))
+    if hr.random() >= 0.3:
+        return case
+    before = []
+    for _ in range(hr.choice([1, 1, 2])):
+        mode = hr.choice(["interrupt", "element", "element", "complete"])
+        k = hr.choice([1, 2, 3]) if mode == "interrupt" else hr.choice([2, 2, 3, 4]) if mode == "element" else 0
+        before.append({"mode": mode, "k": k, "times": hr.choice([1, 1, 2])})
+    return {**case, "before": before}
 
 
 def random_case0(rng):
@@ -340,10 +481,15 @@ def cases_of(chunk):
     else:
         rng = random.Random(chunk["seed"])
         for _ in range(chunk["n"]):
-            yield random_case(rng)
+            yield with_history(random_case(rng))
 
 
 def shrinks(case):
+    if case.get("before"):
+        yield {k: v for k, v in case.items() if k != "before"}
+        if len(case["before"]) > 1:
+            for i in range(len(case["before"])):
+                yield {**case, "before": case["before"][:i] + case["before"][i + 1 :]}
     x = case["x"]
     n = len(x)
     for k in (n // 2, n // 4, 1):
